@@ -8,12 +8,20 @@ state spec:   {"cls": "KSState"|...|"CustomState", "attrs": {name: value spec}}
 import copy
 
 
+_SHARED = {}
+
+
 def mk_shape(sp):
     import numpy as np
     from commonroad.geometry.shape import Rectangle, Circle, Polygon, ShapeGroup
     if sp is None:
         return None
     k = sp[0]
+    if k == "ref":
+        # ["ref", key, shape spec]: every use of the same key within one build() yields the SAME shape object (a shared instance)
+        if sp[1] not in _SHARED:
+            _SHARED[sp[1]] = mk_shape(sp[2])
+        return _SHARED[sp[1]]
     if k == "rect":
         return Rectangle(sp[1], sp[2], np.array([sp[3], sp[4]], dtype=float), sp[5])
     if k == "circle":
@@ -141,8 +149,11 @@ def mk_light(sp):
     if sp.get("cycle") is not None:
         cyc = TrafficLightCycle([TrafficLightCycleElement(TrafficLightState[s], d) for s, d in sp["cycle"]], time_offset=sp.get("offset", 0),
                                 active=sp.get("cycle_active", True))
-    return TrafficLight(sp["id"], None if sp.get("position") is None else np.array(sp["position"], dtype=float), cyc,
-                        active=sp.get("active", True), direction=TrafficLightDirection[sp.get("direction", "ALL")])
+    tl = TrafficLight(sp["id"], None if sp.get("position") is None else np.array(sp["position"], dtype=float), cyc,
+                      active=sp.get("active", True), direction=TrafficLightDirection[sp.get("direction", "ALL")])
+    if "active_set_later" in sp:
+        tl.active = sp["active_set_later"]          # through the public setter, after construction
+    return tl
 
 
 def mk_intersection(sp):
@@ -203,6 +214,7 @@ def mk_pps(spec):
 def build(spec):
     """-> (Scenario, PlanningProblemSet), all objects fresh"""
     from commonroad.scenario.scenario import Scenario, Tag
+    _SHARED.clear()
     sc = Scenario(spec.get("dt", 0.1), mk_sid(spec.get("sid")), author=spec.get("author", "A. Author"),
                   tags=None if spec.get("tags") is None else {Tag[t] for t in spec["tags"]},
                   affiliation=spec.get("affiliation", "TUM"), source=spec.get("source", "handmade"), location=mk_location(spec.get("location")))
